@@ -401,7 +401,10 @@ pub fn cmd_meta_record(args: &[String]) -> i32 {
     let mut judged = 0usize;
     let mut multi = 0usize;
     for i in 0..n {
-        let e = g.program(2 + rng.below(budget));
+        // now and then an expression whose value carries tags: the block must hand the tags through
+        let tagged_e = ["5 1 \"k\" insert-tag", "\"s\" { 2 \"j\" } with-tags", "nil 1 \"k\" insert-tag", "[ 1 ] 1 \"k\" insert-tag", "255 ^hex", "7 { } with-tags"];
+        let use_tagged = i % 9 == 4;
+        let e = if use_tagged { tagged_e[rng.below(tagged_e.len())].to_string() } else { g.program(2 + rng.below(budget)) };
         // the value(s) e evaluates to, on a fresh interpreter
         let mut xe = fresh();
         let ok = matches!(guarded(|| xe.eval(&e)), Outcome::Done(Ok(())));
@@ -422,10 +425,14 @@ pub fn cmd_meta_record(args: &[String]) -> i32 {
         let vals = visible_stack(&xe);
         let mut lits: Vec<String> = vec![];
         let mut printable = true;
-        for v in vals.iter().rev() {
-            match lit_text(v) {
-                Some(t) => lits.push(t),
-                None => printable = false,
+        if use_tagged {
+            lits.push(e.clone()); // no literal syntax for a tagged value: the expression itself stands for its value
+        } else {
+            for v in vals.iter().rev() {
+                match lit_text(v) {
+                    Some(t) => lits.push(t),
+                    None => printable = false,
+                }
             }
         }
         if !printable {
